@@ -4,7 +4,7 @@ Two layers on a real client + real server pair.
 
  (a) Configuration enumeration: every combination of {default, one or two
      legal non-defaults, boundary} for each of the seven known settings
-     (1,296 client configurations), installed as the client's local settings,
+     (1,728 client configurations), installed as the client's local settings,
      optionally with a further unacknowledged update_settings pending.  For
      each: initiate_upgrade_connection on both sides (the client's
      HTTP2-Settings value handed to the server) and compare.
@@ -34,13 +34,13 @@ OPTIONS = {
     1: [None, 0, 65536],                 # HEADER_TABLE_SIZE
     2: [None, 0],                        # ENABLE_PUSH
     3: [None, 0, 1, 2 ** 32 - 1],        # MAX_CONCURRENT_STREAMS (h2 default 100)
-    4: [None, 0, 2 ** 31 - 1],           # INITIAL_WINDOW_SIZE
+    4: [None, 0, 65534, 2 ** 31 - 1],    # INITIAL_WINDOW_SIZE (65534: its base64url form contains '-')
     5: [None, 16385, 2 ** 24 - 1],       # MAX_FRAME_SIZE
     6: [None, 0, 2 ** 32 - 1],           # MAX_HEADER_LIST_SIZE
     8: [None, 1],                        # ENABLE_CONNECT_PROTOCOL
 }
 ALPHABET = "client settings: product of %r (None = library default), with/without a pending update_settings; continuation alphabet U (see PROFILE_U)" % (OPTIONS,)
-BOUNDS = {"quick": "(a) all 1,296 configurations x {no pending change, pending change}; (b) depth 4, <=1 deviation, 3 configurations",
+BOUNDS = {"quick": "(a) all 1,728 configurations x {no pending change, pending change}; (b) depth 4, <=1 deviation, 3 configurations",
           "thorough": "(b) depth 6, <=2 deviations"}
 C, S = P.C, P.S
 PROFILE_U = ["s:resp1", "s:resp1es", "s:info1", "s:data1", "s:data1es", "s:trailers1", "c:req3", "c:req3es", "s:resp3es", "s:push1",
